@@ -45,22 +45,42 @@ Proof.
   - change (2 ^ (64 - 1)) with two63. apply f2i64_in_range.
 Qed.
 
-(* unsigned kinds go through int64: right below 2^63 only *)
-Theorem to_uint_in_range w m e :
-  uint_range w (ftrunc m e) -> ftrunc m e < two63 -> to_uint w (FFin m e) = ftrunc m e.
+(* unsigned kinds: every number whose truncation fits the kind arrives truncated *)
+Theorem to_uint_in_range w m e : uint_range w (ftrunc m e) -> to_uint w (FFin m e) = ftrunc m e.
 Proof.
-  unfold uint_range, to_uint, wrap_u. intros H H63.
-  rewrite f2i64_in_range by (unfold two63 in *; lia).
-  apply Z.mod_small. exact H.
+  unfold uint_range. intros H.
+  assert (Small : ftrunc m e < two63 -> wrap_u (wbits w) (f2i64 (FFin m e)) = ftrunc m e).
+  { intros H63. unfold wrap_u. rewrite f2i64_in_range by (unfold two63 in *; lia). apply Z.mod_small. exact H. }
+  assert (Big : forall w', wbits w' = 64 -> wbits w = 64 -> to_uint64 (FFin m e) = ftrunc m e).
+  { intros w' _ Hw. rewrite Hw in H. change (2 ^ 64) with two64 in H. unfold to_uint64.
+    destruct (two63 <=? ftrunc m e) eqn:E1; [apply Z.leb_le in E1|apply Z.leb_gt in E1].
+    - destruct (ftrunc m e <? two64) eqn:E2; [reflexivity|apply Z.ltb_ge in E2; lia].
+    - cbn [andb]. unfold wrap_u. rewrite f2i64_in_range by (unfold two63 in *; lia).
+      apply Z.mod_small. change (2 ^ 64) with two64. lia. }
+  destruct w; cbn [to_uint]; try (apply Small; cbn [wbits] in H; unfold two63; lia).
+  - apply (Big W64); reflexivity.
+  - apply (Big WP); reflexivity.
 Qed.
 
-(* what callers of a uint64 parameter get in the upper half of its range *)
-Theorem to_uint64_upper_half m e :
-  two63 <= ftrunc m e -> to_uint W64 (FFin m e) = two63 /\ to_uint WP (FFin m e) = two63.
+(* ... and what a uint64/uint parameter receives for the numbers outside its range (unchanged by
+   the repair of F-C17-6): negative numbers in the int64 range wrap modulo 2^64; below -2^63, from
+   2^64 on, and for NaN and the infinities the amd64 int64 conversion gives -2^63, i.e. 2^63 *)
+Theorem to_uint64_out_of_range :
+  (forall m e, - two63 <= ftrunc m e < 0 -> to_uint64 (FFin m e) = ftrunc m e + two64) /\
+  (forall m e, ftrunc m e < - two63 \/ two64 <= ftrunc m e -> to_uint64 (FFin m e) = two63) /\
+  to_uint64 FNaN = two63 /\ (forall s, to_uint64 (FInf s) = two63).
 Proof.
-  intros H. unfold to_uint, f2i64, in_i64.
-  destruct (ftrunc m e <? two63) eqn:E; [apply Z.ltb_lt in E; lia|].
-  rewrite andb_false_r. cbn [wbits]. split; reflexivity.
+  repeat split; try reflexivity.
+  - intros m e H. unfold to_uint64.
+    destruct (two63 <=? ftrunc m e) eqn:E1; [apply Z.leb_le in E1; unfold two63 in *; lia|]. cbn [andb].
+    unfold wrap_u. rewrite f2i64_in_range by (unfold two63 in *; lia). change (2 ^ 64) with two64.
+    unfold two64, two63 in *. Z.div_mod_to_equations. lia.
+  - intros m e H. unfold to_uint64, f2i64, in_i64.
+    destruct (two63 <=? ftrunc m e) eqn:E1; [apply Z.leb_le in E1|apply Z.leb_gt in E1].
+    + destruct (ftrunc m e <? two64) eqn:E2; [apply Z.ltb_lt in E2; unfold two63, two64 in *; lia|]. cbn [andb].
+      destruct (ftrunc m e <? two63) eqn:E3; [apply Z.ltb_lt in E3; lia|]. rewrite andb_false_r. reflexivity.
+    + cbn [andb]. destruct (- two63 <=? ftrunc m e) eqn:E3; [apply Z.leb_le in E3; unfold two63, two64 in *; lia|].
+      reflexivity.
 Qed.
 
 (* ---- rounding: float32(x) and int64/uint64 -> float64 ---- *)
@@ -114,6 +134,26 @@ Proof.
     + split; [nia|]. intros Habs. exfalso. nia.
 Qed.
 
+(* ---- type identity ---- *)
+Lemma width_eqb_refl w : width_eqb w w = true.
+Proof. destruct w; reflexivity. Qed.
+
+Lemma ty_eqb_refl t : ty_eqb t t = true.
+Proof.
+  induction t; cbn [ty_eqb]; rewrite ?width_eqb_refl, ?Bool.eqb_reflx, ?IHt; reflexivity.
+Qed.
+
+Lemma ty_eqb_eq a : forall b, ty_eqb a b = true -> a = b.
+Proof.
+  induction a; intros b; destruct b; cbn [ty_eqb]; intros H; try discriminate; try reflexivity;
+    repeat match goal with
+           | H : _ && _ = true |- _ => apply andb_true_iff in H as [? ?]
+           | H : Bool.eqb _ _ = true |- _ => apply Bool.eqb_prop in H; subst
+           | H : width_eqb ?x ?y = true |- _ => destruct x, y; try discriminate; clear H
+           end; try reflexivity.
+  f_equal. apply IHa. assumption.
+Qed.
+
 (* ---- the AWK-side views ---- *)
 Section Prims.
   Variable parse_float : bytes -> option fnum.
@@ -125,61 +165,67 @@ Section Prims.
   Notation v_num := (v_num parse_prefix).
   Notation v_str := (v_str fmt_float).
 
-  (* the value toNative builds for a documented kind, as a total function *)
+  (* the value callNative builds for a parameter of a documented kind (toNative, then the
+     conversion to the parameter's own type), as a total function *)
   Definition conv (v : value) (t : ty) : gval :=
     match kind_of t with
-    | KBool => GV (TBool false) (DBool (v_boolean v))
-    | KInt w => GV (TInt w false) (DInt (to_int w (v_num v)))
-    | KUint w => GV (TUint w false) (DUint (to_uint w (v_num v)))
-    | KFloat32 => GV (TFloat32 false) (DFloat (to_f32 (v_num v)))
-    | KFloat64 => GV (TFloat64 false) (DFloat (v_num v))
-    | KString => GV (TString false) (DStr (v_str v))
-    | KSlice => GV byte_slice (DBytes (v_str v))
+    | KBool => GV t (DBool (v_boolean v))
+    | KInt w => GV t (DInt (to_int w (v_num v)))
+    | KUint w => GV t (DUint (to_uint w (v_num v)))
+    | KFloat32 => GV t (DFloat (to_f32 (v_num v)))
+    | KFloat64 => GV t (DFloat (v_num v))
+    | KString => GV t (DStr (v_str v))
+    | KSlice => GV t (DBytes (v_str v))
     | KOther => GV TOther DOpaque
     end.
 
-  Lemma to_native_conv v t : valid_native_type t = true -> to_native v t = NOk (conv v t).
+  (* toNative + Convert never panic on a documented kind, user-defined types included *)
+  Lemma to_native_conv v t : valid_native_type t = true ->
+    (ndo v0 <- to_native v t; convert_arg v0 t) = NOk (conv v t).
   Proof.
-    destruct t; cbn [valid_native_type kind_of]; intros H; try discriminate; try reflexivity.
-    unfold Native.to_native, conv. cbn [kind_of elem nbind]. rewrite H. reflexivity.
+    destruct t as [d|w d|w d|d|d|d|e d| |]; cbn [valid_native_type kind_of]; intros H; try discriminate;
+      unfold Native.to_native, conv; cbn [kind_of elem nbind];
+      try (destruct d; try destruct w; reflexivity).
+    rewrite H. cbn [nbind]. unfold convert_arg. cbn [gty]. rewrite ty_eqb_refl. reflexivity.
   Qed.
 
   (* toNative reaches one of its "unexpected" arms exactly on undocumented types *)
   Lemma to_native_panics_iff v t :
     (exists k, to_native v t = NPanic k) <-> valid_native_type t = false.
   Proof.
-    split.
-    - intros [k H]. destruct (valid_native_type t) eqn:V; [|reflexivity].
-      rewrite (to_native_conv v t V) in H. discriminate.
-    - destruct t; cbn [valid_native_type kind_of]; intros H; try discriminate;
-        unfold Native.to_native; cbn [kind_of elem nbind]; try (eexists; reflexivity).
-      rewrite H. eexists; reflexivity.
+    destruct t as [d|w d|w d|d|d|d|e d| |]; cbn [valid_native_type kind_of];
+      unfold Native.to_native; cbn [kind_of elem nbind];
+      try (split; [intros [k H]; discriminate|discriminate]);
+      try (split; [reflexivity|intros _; eexists; reflexivity]).
+    destruct (is_uint8_kind (kind_of e)); split; try discriminate; try reflexivity.
+    - intros [k H]. discriminate.
+    - intros _. eexists; reflexivity.
   Qed.
 
   (* the documented table, kind by kind *)
-  Theorem conv_bool v t : kind_of t = KBool -> conv v t = GV (TBool false) (DBool (v_boolean v)).
+  Theorem conv_bool v t : kind_of t = KBool -> conv v t = GV t (DBool (v_boolean v)).
   Proof. intros K. unfold conv. rewrite K. reflexivity. Qed.
 
   Theorem conv_int v t w m e :
     kind_of t = KInt w -> v_num v = FFin m e -> int_range w (ftrunc m e) ->
-    conv v t = GV (TInt w false) (DInt (ftrunc m e)).
+    conv v t = GV t (DInt (ftrunc m e)).
   Proof. intros K N R. unfold conv. rewrite K, N, (to_int_in_range w m e R). reflexivity. Qed.
 
   Theorem conv_uint v t w m e :
-    kind_of t = KUint w -> v_num v = FFin m e -> uint_range w (ftrunc m e) -> ftrunc m e < two63 ->
-    conv v t = GV (TUint w false) (DUint (ftrunc m e)).
-  Proof. intros K N R R2. unfold conv. rewrite K, N, (to_uint_in_range w m e R R2). reflexivity. Qed.
+    kind_of t = KUint w -> v_num v = FFin m e -> uint_range w (ftrunc m e) ->
+    conv v t = GV t (DUint (ftrunc m e)).
+  Proof. intros K N R. unfold conv. rewrite K, N, (to_uint_in_range w m e R). reflexivity. Qed.
 
-  Theorem conv_f64 v t : kind_of t = KFloat64 -> conv v t = GV (TFloat64 false) (DFloat (v_num v)).
+  Theorem conv_f64 v t : kind_of t = KFloat64 -> conv v t = GV t (DFloat (v_num v)).
   Proof. intros K. unfold conv. rewrite K. reflexivity. Qed.
 
-  Theorem conv_f32 v t : kind_of t = KFloat32 -> conv v t = GV (TFloat32 false) (DFloat (to_f32 (v_num v))).
+  Theorem conv_f32 v t : kind_of t = KFloat32 -> conv v t = GV t (DFloat (to_f32 (v_num v))).
   Proof. intros K. unfold conv. rewrite K. reflexivity. Qed.
 
-  Theorem conv_string v t : kind_of t = KString -> conv v t = GV (TString false) (DStr (v_str v)).
+  Theorem conv_string v t : kind_of t = KString -> conv v t = GV t (DStr (v_str v)).
   Proof. intros K. unfold conv. rewrite K. reflexivity. Qed.
 
-  Theorem conv_bytes v t : kind_of t = KSlice -> conv v t = GV byte_slice (DBytes (v_str v)).
+  Theorem conv_bytes v t : kind_of t = KSlice -> conv v t = GV t (DBytes (v_str v)).
   Proof. intros K. unfold conv. rewrite K. reflexivity. Qed.
 
   (* the string form: strings as they are, unset = "", integers in decimal *)
@@ -208,22 +254,14 @@ Section Prims.
     - intros s H. cbn [Native.v_boolean]. rewrite H. reflexivity.
   Qed.
 
-  (* the type of what toNative builds is the predeclared type of the kind *)
-  Definition plain_of (t : ty) : ty :=
-    match kind_of t with
-    | KBool => TBool false | KInt w => TInt w false | KUint w => TUint w false
-    | KFloat32 => TFloat32 false | KFloat64 => TFloat64 false | KString => TString false
-    | KSlice => byte_slice | KOther => TOther
-    end.
-
-  Lemma gty_conv v t : gty (conv v t) = plain_of t.
-  Proof. unfold conv, plain_of. destruct (kind_of t); reflexivity. Qed.
+  (* the built value has the parameter's own type *)
+  Lemma gty_conv v t : valid_native_type t = true -> gty (conv v t) = t.
+  Proof.
+    unfold conv. destruct t; cbn [valid_native_type kind_of]; intros H; try discriminate; reflexivity.
+  Qed.
 
   Lemma kind_conv v t : valid_native_type t = true -> kind_of (gty (conv v t)) = kind_of t.
-  Proof.
-    rewrite gty_conv. unfold plain_of. destruct t; cbn [valid_native_type kind_of]; intros H;
-      try discriminate; reflexivity.
-  Qed.
+  Proof. intros H. rewrite gty_conv by exact H. reflexivity. Qed.
 End Prims.
 
 (* ---- reflect.Zero ---- *)
@@ -251,10 +289,6 @@ Definition data_fits (t : ty) (d : gdata) : Prop :=
   | TOther => True
   end.
 
-(* result types fromNative can take: documented, and a byte slice must be exactly []byte *)
-Definition result_safe (t : ty) : bool :=
-  valid_native_type t && match t with TSlice _ _ => ty_eqb t byte_slice | _ => true end.
-
 Theorem from_native_table :
   (forall d b, from_native (GV (TBool d) (DBool b)) = NOk (VNum (FFin (if b then 1 else 0) 0))) /\
   (forall w d z, from_native (GV (TInt w d) (DInt z)) = NOk (VNum (z_to_f64 z))) /\
@@ -262,30 +296,28 @@ Theorem from_native_table :
   (forall d x, from_native (GV (TFloat32 d) (DFloat x)) = NOk (VNum x)) /\
   (forall d x, from_native (GV (TFloat64 d) (DFloat x)) = NOk (VNum x)) /\
   (forall d s, from_native (GV (TString d) (DStr s)) = NOk (VStr s)) /\
-  (forall s, from_native (GV byte_slice (DBytes s)) = NOk (VStr s)) /\
-  from_native (GV byte_slice DNilSlice) = NOk (VStr []).
-Proof. repeat split. Qed.
-
-Theorem from_native_ok o :
-  result_safe (gty o) = true -> data_fits (gty o) (gdat o) -> exists v, from_native o = NOk v.
+  (forall e d s, kind_of e = KUint W8 -> from_native (GV (TSlice e d) (DBytes s)) = NOk (VStr s)) /\
+  (forall e d, kind_of e = KUint W8 -> from_native (GV (TSlice e d) DNilSlice) = NOk (VStr [])).
 Proof.
-  destruct o as [t d]. cbn [gty gdat]. unfold result_safe.
-  destruct t; cbn [valid_native_type kind_of andb data_fits]; intros S F; try discriminate.
+  repeat split; intros e d; intros; unfold from_native; cbn [gty gdat kind_of];
+    match goal with H : kind_of e = _ |- _ => rewrite H end; reflexivity.
+Qed.
+
+(* fromNative takes every result type that checkNativeFunc accepts (user-defined ones included) *)
+Theorem from_native_ok o :
+  valid_native_type (gty o) = true -> data_fits (gty o) (gdat o) -> exists v, from_native o = NOk v.
+Proof.
+  destruct o as [t d]. cbn [gty gdat].
+  destruct t; cbn [valid_native_type kind_of data_fits]; intros S F; try discriminate.
   - destruct F as [b ->]. eexists; reflexivity.
   - destruct F as [z ->]. eexists; reflexivity.
   - destruct F as [z ->]. eexists; reflexivity.
   - destruct F as [x ->]. eexists; reflexivity.
   - destruct F as [x ->]. eexists; reflexivity.
   - destruct F as [s ->]. eexists; reflexivity.
-  - apply andb_true_iff in S as [_ S]. unfold from_native. cbn [gty gdat kind_of]. rewrite S.
+  - unfold from_native. cbn [gty gdat kind_of]. rewrite S.
     destruct F as [->|[s ->]]; eexists; reflexivity.
 Qed.
-
-(* fromNative panics on exactly the accepted result types that are not result_safe:
-   user-defined byte-slice types *)
-Theorem from_native_defined_slice_panics e d dat :
-  ty_eqb (TSlice e d) byte_slice = false -> from_native (GV (TSlice e d) dat) = NPanic PkRetSlice.
-Proof. intros H. unfold from_native. cbn [gty kind_of]. rewrite H. reflexivity. Qed.
 
 (* round trips: a value sent to Go and returned unchanged comes back as the same AWK value *)
 Section RoundTrip.
@@ -309,7 +341,7 @@ Section RoundTrip.
     intros R B. assert (T : ftrunc z 0 = z) by (unfold ftrunc; cbn; lia).
     unfold uint_range in R.
     rewrite (conv_uint parse_float parse_prefix fmt_float (VNum (FFin z 0)) (TUint w d) w z 0 eq_refl eq_refl)
-      by (rewrite T; first [exact R|unfold two53, two63 in *; lia]).
+      by (rewrite T; exact R).
     rewrite T. unfold from_native. cbn [gty gdat kind_of].
     rewrite (z_to_f64_exact z) by (rewrite Z.abs_eq; lia). reflexivity.
   Qed.
@@ -320,7 +352,7 @@ Section RoundTrip.
 
   Theorem round_trip_bytes e d s : kind_of e = KUint W8 ->
     from_native (conv parse_float parse_prefix fmt_float (VStr s) (TSlice e d)) = NOk (VStr s).
-  Proof. reflexivity. Qed.
+  Proof. intros H. unfold conv, from_native. cbn [kind_of gty gdat]. rewrite H. reflexivity. Qed.
 
   Theorem round_trip_f64 d x :
     from_native (conv parse_float parse_prefix fmt_float (VNum x) (TFloat64 d)) = NOk (VNum x).
